@@ -150,8 +150,10 @@ def check(prop, tier, seed, replay=None):
                            + mod.describe(cases[i], obs[i]))
     if n_new > 3:
         notes.append(f"{n_new} failing inputs not listed as known findings; the 3 smallest are reported")
-    for (case, o, what) in extra:
+    for (case, o, what) in extra[:3]:
         report_failure(case, o, what)
+    if len(extra) > 3:
+        notes.append(f"{len(extra)} failures from the implementation-level checks; 3 reported")
     only_model = [i for i in model_fail if i not in set(spec_fail)]
     if [v for v in violations if not v["nofail"]]:
         only_model = []      # concrete failing inputs were already found
